@@ -1,6 +1,8 @@
 pub mod c01;
 pub mod c02;
 pub mod c03;
+pub mod c04;
+pub mod c05;
 pub mod common;
 
 use crate::engine::PropertySpec;
@@ -10,8 +12,10 @@ pub fn spec(id: &str) -> Option<PropertySpec> {
         "C01" => Some(c01::spec()),
         "C02" => Some(c02::spec()),
         "C03" => Some(c03::spec()),
+        "C04" => Some(c04::spec()),
+        "C05" => Some(c05::spec()),
         _ => None,
     }
 }
 
-pub const ALL: [&str; 3] = ["C01", "C02", "C03"];
+pub const ALL: [&str; 5] = ["C01", "C02", "C03", "C04", "C05"];
